@@ -19,7 +19,7 @@ package fatigue
 //@   ensures [exp] result == params.(*ExpFatigueParams).Multiplier * exp(params.(*ExpFatigueParams).Alpha * real(params.(*ExpFatigueParams).QueryNumber)) - params.(*ExpFatigueParams).Multiplier
 
 //@ func blurCriteriaValues
-//@   property C17
+//@   property C17 C07 C09
 //@   fnparam valueGenerator ensures 0.0 <= result && result < 1.0
 //@   fnparam signGenerator ensures 0.0 <= result && result < 1.0
 //@   requires forall i int, j int :: 0 <= i && i < j && j < len(criteria) ==> criteria[i].criterion.Id != criteria[j].criterion.Id
@@ -57,7 +57,7 @@ package fatigue
 //@      b.valueRange.Min == utils.scaledMin(r, b.bounding.AllowedValuesRangeScaling) && b.valueRange.Max == utils.scaledMax(r, b.bounding.AllowedValuesRangeScaling)
 
 //@ func matchCriteriaWithBoundings
-//@   property C17
+//@   property C17 C07 C09
 //@   ensures [criteria_in_order] fresh(result) && len(result) == len(dmp.Criteria) && forall k int :: 0 <= k && k < len(dmp.Criteria) ==> result[k].criterion == dmp.Criteria[k]
 //@   ensures [clipping_interval_from_declared_range] forall k int :: 0 <= k && k < len(dmp.Criteria) && dmp.Criteria[k].ValuesRange != nil ==> result[k].bounding != nil
 //@             && (result[k].bounding.valueRange != nil ==> clippedFrom(*result[k].bounding, old(*dmp.Criteria[k].ValuesRange)))
@@ -72,7 +72,7 @@ package fatigue
 //@             && (result[k].bounding.valueRange != nil ==> exists r utils.ValueRange :: model.observed(r, alternatives, dmp.Criteria[k].Id) && clippedFrom(*result[k].bounding, r))
 
 //@ func prepareResult
-//@   property C17 C09
+//@   property C17 C09 C07
 //@   ensures [state] fresh(result) && fresh(result.DMP) && result.DMP.ConsideredAlternatives == consideredAlts && result.DMP.NotConsideredAlternatives == notConsideredAlts
 //@   ensures [untouched] result.DMP.Criteria == current.Criteria && result.DMP.MethodParameters == current.MethodParameters
 //@   ensures [report] typeis(result.Props, FatigueResult) && result.Props.(FatigueResult).EffectiveFatigueRatio == fatigueRatio
@@ -98,3 +98,13 @@ package fatigue
 // known statically): assumed to write only that fresh object.
 //@ func parseFatigueFuncParams
 //@   trusted
+
+// ---- no state shared between requests (C09): every request decodes its function parameters into a new object
+//@ func (*ConstFatigueFunction).BlankParams
+//@   property C09 C17
+//@   nopanic
+//@   ensures [new_object_each_time] typeis(result, *ConstFatigueParams) && fresh(result.(*ConstFatigueParams))
+//@ func (*ExponentialFromZeroFatigue).BlankParams
+//@   property C09 C17
+//@   nopanic
+//@   ensures [new_object_each_time] typeis(result, *ExpFatigueParams) && fresh(result.(*ExpFatigueParams))
